@@ -577,7 +577,7 @@ pub fn install_panic_hook() {
     std::panic::set_hook(Box::new(|info| {
         let loc = info
             .location()
-            .map(|l| l.file().to_string())
+            .map(|l| format!("{}#L{}", l.file(), l.line()))
             .unwrap_or_else(|| "?".into());
         let msg = if let Some(s) = info.payload().downcast_ref::<&str>() {
             s.to_string()
@@ -616,6 +616,8 @@ pub fn normalise_msg(m: &str) -> String {
 
 /// shorten a source path to its crate-relative tail
 pub fn short_loc(file: &str) -> String {
+    // the line number (kept after '#L' for messages) is not part of a signature
+    let file = file.split("#L").next().unwrap_or(file);
     if let Some(i) = file.find("/file-formats/") {
         return file[i + 1..].to_string();
     }
